@@ -10,8 +10,9 @@ import (
 // C19 — access controls and enablement are enforced on every path.
 
 var c19Mutating = []string{"addfact", "remfact", "addrule", "remrule", "enable", "setparents", "clear", "event-mutating"}
-var c19Revealing = []string{"getfact", "search", "getrule", "searchrules", "listrules", "statesize", "query", "event", "event-trigger"}
-var c19States = []string{"none", "write", "read", "both", "readonly", "disabled"}
+var c19Revealing = []string{"getfact", "search", "getrule", "searchrules", "listrules", "statesize", "query", "event", "event-trigger", "search-inherited", "searchrules-inherited", "listrules-inherited"}
+// (parentread / parentdisabled: L itself is open, its parent P is protected: what L inherits is the parent's to guard)
+var c19States = []string{"none", "write", "read", "both", "readonly", "disabled", "parentread", "parentdisabled"}
 var c19Callers = []string{"nokey", "wrongkey", "rightkey"}
 
 func init() {
@@ -57,6 +58,17 @@ func c19Setup(p *h.Plan, state string) {
 		p.Ops = append(p.Ops, h.Op{K: "readonly", Loc: "L", B: true})
 	case "disabled":
 		p.Ops = append(p.Ops, h.Op{K: "setprop", Loc: "L", Id: "", S: "enabled", J: "no"})
+	case "parentread", "parentdisabled":
+		p.Ops = append(p.Ops,
+			h.Op{K: "addfact", Loc: "P", Id: "pf", J: map[string]interface{}{"secret": "parent", "n": "p"}},
+			h.Op{K: "addrule", Loc: "P", Id: "pr", J: map[string]interface{}{
+				"when": map[string]interface{}{"pattern": map[string]interface{}{"ping": "?p"}}, "action": map[string]interface{}{"code": "'pr'"}}},
+			h.Op{K: "setparents", Loc: "L", L: []string{"P"}})
+		if state == "parentread" {
+			p.Ops = append(p.Ops, h.Op{K: "setprop", Loc: "P", Id: "", S: "readKey", J: "rk"})
+		} else {
+			p.Ops = append(p.Ops, h.Op{K: "setprop", Loc: "P", Id: "", S: "enabled", J: "no"})
+		}
 	}
 }
 
@@ -95,6 +107,12 @@ func c19Op(kind, caller string, i int) h.Op {
 		op = h.Op{K: "query", J: map[string]interface{}{"secret": "?s"}}
 	case "event":
 		op = h.Op{K: "event", J: map[string]interface{}{"ping": "a"}}
+	case "search-inherited":
+		op = h.Op{K: "search", J: map[string]interface{}{"secret": "?s"}, B: true}
+	case "searchrules-inherited":
+		op = h.Op{K: "searchrules", J: map[string]interface{}{"ping": "a"}, B: true}
+	case "listrules-inherited":
+		op = h.Op{K: "listrules", B: true}
 	case "event-trigger":
 		// an event that names the rule to run (the form a cron tick takes);
 		// it also carries what the rule's `when` asks for
@@ -115,7 +133,7 @@ func c19Base(state string) *h.Plan {
 	p.Cfg["state"] = state
 	p.Cfg["storage"] = "mem"
 	p.Cfg["locs"] = toIface([]string{"L", "P"})
-	p.Cfg["ids"] = toIface([]string{"f1", "f2", "f3", "r1", "r2", "rm", "byaction"})
+	p.Cfg["ids"] = toIface([]string{"f1", "f2", "f3", "r1", "r2", "rm", "byaction", "pf", "pr"})
 	p.Cfg["patterns"] = []interface{}{map[string]interface{}{"secret": "?s"}, map[string]interface{}{"rule": "?r"}, map[string]interface{}{"made": "?m"}}
 	p.Cfg["events"] = []interface{}{map[string]interface{}{"ping": "a"}}
 	return p
